@@ -53,19 +53,52 @@ def segReadN (c : Cls) (size : BitVec 64) : BitVec 64 :=
 def segDataOk (c : Cls) (isComplete : Bool) : Bool :=
   match c with | .c32 => seg32_load_data_ok isComplete | .c64 => seg64_load_data_ok isComplete
 
+/-- `section_impl<T>::load_data` : `nullptr == data && SHT_NULL != get_type() && SHT_NOBITS != get_type()` -/
+def secNeedsLoad (c : Cls) (dataIsNull : Bool) (ty : BitVec 32) : Bool :=
+  match c with | .c32 => sec32_load_data_need dataIsNull ty | .c64 => sec64_load_data_need dataIsNull ty
+/-- `section_impl<T>::load_data` : `size > numeric_limits<size_t>::max() - 1` -/
+def secSizeT (c : Cls) (size : BitVec 64) : Bool :=
+  match c with | .c32 => sec32_load_data_sizet size | .c64 => sec64_load_data_sizet size
+/-- `section_impl<T>::load_data` : `new (std::nothrow) char[size_t(size) + 1]` -/
+def secAllocN (c : Cls) (size : BitVec 64) : BitVec 64 :=
+  match c with | .c32 => sec32_load_data_alloc size | .c64 => sec64_load_data_alloc size
+/-- `section_impl<T>::load_data` : `(0 != size) && (nullptr != data)` -/
+def secDoRead (c : Cls) (size : BitVec 64) (dataIsNull : Bool) : Bool :=
+  match c with | .c32 => sec32_load_data_do_read size dataIsNull | .c64 => sec64_load_data_do_read size dataIsNull
+/-- `section_impl<T>::load_data` : `pstream->seekg(sh_offset)` -/
+def secSeekTo (c : Cls) (off : BitVec 64) : BitVec 64 :=
+  match c with | .c32 => sec32_load_data_seek off | .c64 => sec64_load_data_seek off
+/-- `section_impl<T>::load_data` : `pstream->read(data.get(), size)` -/
+def secReadN (c : Cls) (size : BitVec 64) : BitVec 64 :=
+  match c with | .c32 => sec32_load_data_readn size | .c64 => sec64_load_data_readn size
+/-- `section_impl<T>::load_data` : `if (!is_complete)` -/
+def secIncomplete (c : Cls) (isComplete : Bool) : Bool :=
+  match c with | .c32 => sec32_load_data_incomplete isComplete | .c64 => sec64_load_data_incomplete isComplete
+/-- `section_impl<T>::load_data` : `if (size != 0)` after a failed allocation -/
+def secAllocFailed (c : Cls) (size : BitVec 64) : Bool :=
+  match c with | .c32 => sec32_load_data_alloc_failed size | .c64 => sec64_load_data_alloc_failed size
+/-- `section_impl<T>::load_data` :
+    `is_loaded = (nullptr != data) || (SHT_NULL == get_type()) || (SHT_NOBITS == get_type())` -/
+def secLoadedAfter (c : Cls) (dataIsNull : Bool) (ty : BitVec 32) : Bool :=
+  match c with | .c32 => sec32_load_data_loaded dataIsNull ty | .c64 => sec64_load_data_loaded dataIsNull ty
+
 def isNullOrNobitsTy (t : BitVec 32) : Bool :=
   t == BitVec.ofNat 32 SHT_NULL || t == BitVec.ofNat 32 SHT_NOBITS
 
 /-- a read of `n` bytes at absolute position `off` that neither depends on nor forgets an
-    earlier failure (the `clear(); seekg; read; setstate(earlier)` sequence) -/
+    earlier failure (the `clear(); seekg; read; setstate(earlier)` sequence of
+    `section_impl::load_data`); the third component is
+    `is_complete = static_cast<Elf_Xword>(pstream->gcount()) == size` (the same expression in both
+    instantiations, `LoadTie.sec32_load_data_complete_eq`) -/
 def isolatedRead (st : IStream) (off : BitVec 64) (n : BitVec 64) : IStream × Bytes × Bool :=
   let st1 := (st.clear).seekg off.toInt
-  let (st2, got, complete) :=
-    if n.toInt < 0 then (st1.readNeg, ([] : Bytes), false)
+  let (st2, got) :=
+    if n.toInt < 0 then (st1.readNeg, ([] : Bytes))
     else
       let r := st1.read n.toNat
-      (r.1, r.2, r.1.gcount == n.toNat)
-  ({ st2 with eof := st2.eof || st.eof, fail := st2.fail || st.fail }, got, complete)
+      (r.1, r.2)
+  ({ st2 with eof := st2.eof || st.eof, fail := st2.fail || st.fail }, got,
+   sec64_load_data_complete (BitVec.ofNat 64 st2.gcount) n)
 
 /-- `section_impl::load_data()` -/
 def secLoadData (c : Cls) (tr : List Trans) (ls : LoadSt) (b : SecBuf) : LoadSt × SecBuf × Bool :=
@@ -79,18 +112,22 @@ def secLoadData (c : Cls) (tr : List Trans) (ls : LoadSt) (b : SecBuf) : LoadSt 
     | .c32 => sec32_load_data_size_gt size b.streamSize off
     | .c64 => sec64_load_data_size_gt size b.streamSize off
   if sizeGt then (ls, b, false) else
-  if b.data.isNone && !isNullOrNobitsTy b.stype then
-    if sec64_load_data_sizet size then (ls, b, false) else
-    let n := (sec64_load_data_alloc size).toNat
+  if secNeedsLoad c b.data.isNone b.stype then
+    if secSizeT c size then (ls, b, false) else
+    let n := (secAllocN c size).toNat
     let ls := { ls with allocs := ls.allocs ++ [n] }
-    if size != 0 then
-      let (st, got, complete) := isolatedRead ls.st off size
+    -- allocation failure is not modelled: `data` is non-null after the `reset`
+    if secDoRead c size false then
+      let (st, got, complete) := isolatedRead ls.st (secSeekTo c off) (secReadN c size)
       let ls := { ls with st := st }
-      if !complete then (ls, { b with data := none, dataSize := 0 }, false)
+      if secIncomplete c complete then (ls, { b with data := none, dataSize := 0 }, false)
       else (ls, { b with data := some (got ++ [0]), dataSize := size, isLoaded := true }, true)
+    else if secAllocFailed c size then
+      -- `return false; // Failed to allocate required memory` : dead with a non-null `data`
+      (ls, { b with data := some (alloc 1), dataSize := 0 }, false)
     else (ls, { b with data := some (alloc 1), dataSize := 0, isLoaded := true }, true)
   else
-    let l := b.data.isSome || isNullOrNobitsTy b.stype
+    let l := secLoadedAfter c b.data.isNone b.stype
     (ls, { b with isLoaded := l }, l)
 
 /-- `section_impl::get_data()` against the real stream -/
